@@ -66,7 +66,7 @@ func (g *gen) script(o *Obligation) string {
 		sb.WriteString("(assert " + o.Claim + ")\n")
 	}
 	sb.WriteString("(check-sat)\n(get-model)\n")
-	return sb.String()
+	return fixSidx(sb.String())
 }
 
 type solveResult struct {
@@ -204,4 +204,15 @@ func scratchRoot() string {
 		return d
 	}
 	return "/var/tmp"
+}
+
+const sidxDecl = "(declare-fun sidx (Int Int) Int)\n(assert (forall ((o Int) (k Int)) (! (= (sidx o k) (+ o k)) :pattern ((sidx o k)))))\n"
+
+// fixSidx includes the definitional axiom of sidx only in scripts that use it
+// (a quantified axiom turns many satisfiable queries into "unknown").
+func fixSidx(s string) string {
+	if strings.Contains(s, "(sidx ") {
+		return strings.Replace(s, "@SIDX@", sidxDecl, 1)
+	}
+	return strings.Replace(s, "@SIDX@", "", 1)
 }
